@@ -18,6 +18,10 @@ CLAIMED = {
              ref="§7 C04", technique="Lean 4 proof (invariant over the step fold / read fold) + pipeline-level correspondence"),
  "C05": dict(text=PIPE + "Theorems: paired writes carry both mates in input order, pair decision table (any/both/first, one-sided bounds), forced 'both' for untrimmed filters, --pair-adapters both-or-neither with argmax rule. Oracle: id agreement of every file pair, recomputed pair decisions.",
              ref="§7 C05", technique="Lean 4 proof + pipeline-level correspondence (paired)"),
+ "C06": dict(text="Labelled transition system of runners.py (reader, need-work queue, per-worker inbox/outbox, main with one OrderedChunkWriter per file), generic in the per-chunk processing function and a commutative statistics monoid; theorems for every number of workers, every chunk list and every action sequence: ordered_writer(_prefix), each_chunk_once, received_nodup, parallel_equals_serial, no_deadlock, terminates, executions_finite, maximal_execution_ends. The tie to the code is a deterministic simulation: the unmodified ReaderProcess/WorkerProcess/ParallelPipelineRunner run under a cooperative fake multiprocessing with random and systematically enumerated schedules; every logged trace is replayed through the model (runnertrace op), outputs and statistics are compared with the one-core run; plus real -j 2/3/4 runs and Statistics.__iadd__ merge-order checks. Real process scheduling, pipes and signals are outside the theorem (validated, not proved).",
+             ref="§7 C06", technique="Lean 4 proof (inductive invariants over traces) + deterministic simulation of the real runner validated against the model; partial: OS/process behaviour"),
+ "C12": dict(text="Same transition system with fault actions (chunker raises in the reader, parser raises in a worker): fault_reaches_main, fault_executions_finite, exit0_only_if_wellformed, failed_only_if_fault, written_prefix_is_serial_prefix (every reachable state), maximal_execution_verdict, and the serial-runner counterparts; no fairness assumption. Correspondence: simulation with the fault injected at every chunk position x worker x schedules (deadlock detected exactly), real-process fault enumeration (truncation offsets, corrupted quality line, missing mate, mismatching names; plain and gzip; -j 1/2/3) with a wall-clock bound. Which byte strings dnaio rejects is the library's contract; wall-clock termination of real processes is testing, not proof.",
+             ref="§7 C12", technique="Lean 4 proof (fault-extended LTS, termination measure) + fault-injection simulation and real-process fault enumeration; partial: library/OS behaviour"),
  "C07": dict(text="Model of kmer_heuristic.py and _kmer_finder.pyx; theorems shift_and_correct(_entry), kmers_present_spec, kmer_chunks_spec, pigeonhole_script, prefilter_only_removes, prefilter_safe_partial (explicit side condition) and proved counterexamples for the two recorded findings (anywhere adapter with the read inside the adapter; NUL byte vs N wildcard). The full statement prefilter_safe_statement is false on the current tree (prefilter_not_safe). Oracle: real finder vs always-true finder on the same adapter.",
              ref="§7 C07", technique="Lean 4 proof (bit-parallel invariant, pigeonhole over edit scripts) + correspondence; partial: full safety is refuted, two known findings"),
  "C08": dict(text="Model of hamming_sphere, edit_environment, AdapterIndex; theorems hamming_sphere_spec, edit_environment_sound/upper, index fold invariant and lookup soundness (see Properties/C08.lean). Oracle: soundness, uniqueness and agreement with one-by-one search incl. permutations.",
